@@ -250,6 +250,21 @@ func ruleR05c(h *H) {
 			h.Verdict(good, rule, fmt.Sprintf("%s.NewTerm success return #%d", who, i), h.pos(in), "after DB.UpdateTerm succeeded", "NewTerm can answer successfully although the term was not persisted: "+why)
 		})
 	}
+	// (1b) KV.Flush is the engine's synchronous flush
+	for _, fn := range h.P.ImplMethods("server/kv", "KV", "Flush") {
+		h.Fn(ir.FuncName(fn))
+		var ops []string
+		ir.Instrs(fn, func(in ssa.Instruction) {
+			if c := ir.CallOf(in); c != nil {
+				if f := c.StaticCallee(); f != nil && f.Pkg != nil && strings.HasPrefix(f.Pkg.Pkg.Path(), "github.com/cockroachdb/pebble") && f.Signature.Recv() != nil {
+					ops = append(ops, f.Name())
+				}
+			}
+		})
+		ok := len(ops) == 1 && ops[0] == "Flush"
+		h.Verdict(ok, rule, "KV.Flush is synchronous: "+ir.FuncName(fn), h.P.Pos(fn.Pos()), "pebble DB.Flush (returns after the memtable is on disk)",
+			fmt.Sprintf("KV.Flush is implemented with engine operation(s) %v instead of the blocking DB.Flush: UpdateTerm (and the snapshot) return before the data is on disk, so a node answers NewTerm for a term that a crash can still roll back (Pebble's WAL is disabled)", ops))
+	}
 	// (2) db.UpdateTerm
 	for _, fn := range h.P.ImplMethods("server/kv", "DB", "UpdateTerm") {
 		h.Fn(ir.FuncName(fn))
